@@ -218,7 +218,8 @@ impl<B: SimField, H: ElementHasher<BaseField = B> + Send + Sync + 'static> Base 
             Err(p) => return Delivered { parse: ParseRes::Panic(p), verify: None, same_struct: false, same_content: None, usage: u1 },
         };
         let same_struct = proof == self.proof;
-        let same_content = if same_struct { Some(true) } else { fingerprint::<B, H>(&proof).map(|f| f == self.fingerprint) };
+        // (re-encoding a hostile proof may hit writer-side assertions: treat that as "does not decode")
+        let same_content = if same_struct { Some(true) } else { guard(|| fingerprint::<B, H>(&proof)).ok().flatten().map(|f| f == self.fingerprint) };
         let mut ins = self.case.inputs.clone();
         if inputs == Inputs::Perturbed {
             ins.values[0][0] += B::ONE;
